@@ -37,7 +37,7 @@ def close(a, b, tol=1e-9):
 	return abs(float(a) - float(b)) <= tol * max(1.0, abs(float(a)), abs(float(b)))
 
 
-def gen_ds(rng):
+def gen_ds(rng, nonint=False):
 	from stockpyl.demand_source import DemandSource
 	t = rng.choice(['N', 'P', 'UD', 'UC', 'NB', 'D', 'D1', 'CD'])
 	if t == 'N':
@@ -51,13 +51,18 @@ def gen_ds(rng):
 	if t == 'NB':
 		n, p = rng.choice([2, 5, 9]), rng.choice([0.25, 0.5, 0.75]); return DemandSource(type='NB', n=n, p=p), {'type': 'NB', 'n': fr(n), 'p': fr(p)}, None
 	if t == 'D':
-		l = [rng.randint(0, 12) for _ in range(rng.randint(1, 6))]; return DemandSource(type='D', demand_list=l), {'type': 'D', 'list': frs(l)}, None
+		l = [rng.randint(0, 12) for _ in range(rng.randint(1, 6))]
+		if nonint and rng.random() < .4:
+			l = [v + rng.choice([0, 0.25, 0.75, 0.375]) for v in l]        # a deterministic list need not be integer-valued (rounding applies to it too)
+		return DemandSource(type='D', demand_list=l), {'type': 'D', 'list': frs(l)}, None
 	if t == 'D1':
 		x = rng.randint(0, 9); return DemandSource(type='D', demand_list=x), {'type': 'D', 'list': fr(x)}, None
 	k = rng.randint(2, 5)
 	vals = sorted(rng.sample(range(0, 12), k))
 	if rng.random() < .5:
 		rng.shuffle(vals)          # a demand list is a list of values: any order is legal
+	if nonint and rng.random() < .3:
+		vals = [v + rng.choice([0.25, 0.75]) for v in vals]          # non-integer support points (still distinct after rounding: spacing >= 1)
 	probs = rng.choice([[0.7, 0.2, 0.1], [0.1] * 10, [1 / 3, 1 / 3, 1 / 3], [0.25, 0.25, 0.5], [0.3, 0.3, 0.4], [0.5, 0.5]])
 	probs = probs[:k] if len(probs) >= k and abs(sum(probs[:k]) - 1) < 1e-9 else [1.0 / k] * k
 	return DemandSource(type='CD', demand_list=vals, probabilities=probs), {'type': 'CD', 'vals': frs(vals), 'probs': frs(probs)}, None
@@ -81,7 +86,7 @@ def run(rep, drv):
 		try:
 			with warnings.catch_warnings():
 				warnings.simplefilter('ignore')
-				ds, spec, _ = gen_ds(rng)
+				ds, spec, _ = gen_ds(rng, nonint=True)
 		except Exception as e:
 			bad('construct', 'constructor raised %s' % err_enum(e), {}); continue
 		rnd = rng.random() < .4
